@@ -1798,4 +1798,156 @@ func moreClientScenarios(o *out, r *rng) {
 		}
 		o.count("close-with-many-in-flight")
 	}
+	// (7) the application stops an in-flight transaction through the agent it shares with the client
+	// (WithAgent): whatever the client makes of the "stopped" event, the handler has run exactly once by the
+	// time Close has returned
+	for i := 0; i < 12; i++ {
+		var opts []stun.ClientOption
+		if i%2 == 1 {
+			opts = append(opts, stun.WithNoRetransmit)
+		}
+		e := mk(true, opts...)
+		if e == nil {
+			continue
+		}
+		ids := []int{7000 + i, 7100 + i, 7200 + i}
+		for _, id := range ids {
+			_ = startTID(e, id, clientTID(id), 20)
+		}
+		_ = e.gate.Agent.Stop(clientTID(ids[i%3]))
+		if i%4 >= 2 {
+			_ = e.gate.Agent.StopWithError(clientTID(ids[(i+1)%3]), errors.New("application says no"))
+		}
+		idle(e)
+		_ = e.c.Close()
+		for _, id := range ids {
+			if n := count(e, id); n != 1 {
+				d := fmt.Sprintf("x application-stops-transaction-through-shared-agent #%d no-retransmit=%v id=%d invoked=%d", i, i%2 == 1, id, n)
+				o.failFor("C10", "handler-not-invoked-exactly-once", d)
+				o.failFor("C12", "handler-not-invoked-exactly-once", d)
+			}
+		}
+		o.count("application-stops-through-shared-agent")
+	}
+	// (8) a Start that has passed the client's own checks and is about to register with the agent, while
+	// Close is delivering the "closed" event of another transaction (whose handler takes its time): either
+	// that Start fails, or its handler runs exactly once
+	for i := 0; i < 12; i++ {
+		pa := &pauseStartAgent{Agent: stun.NewAgent(nil), paused: make(chan struct{}, 1), release: make(chan struct{})}
+		e := mk(false, stun.WithAgent(pa))
+		if e == nil {
+			continue
+		}
+		idA, idB := 7300+i, 7400+i
+		var once sync.Once
+		rawA := stunMsg(r, 1, 20)
+		tidA := clientTID(idA)
+		copy(rawA[8:20], tidA[:])
+		_ = e.c.Start(&stun.Message{TransactionID: tidA, Raw: rawA}, func(stun.Event) {
+			e.mu.Lock()
+			e.invoked[idA] = append(e.invoked[idA], idA)
+			e.mu.Unlock()
+			once.Do(func() { close(pa.release) })
+			time.Sleep(time.Duration(5+10*(i%3)) * time.Millisecond)
+		})
+		pa.armed.Store(true)
+		errB := make(chan error, 1)
+		go func() { errB <- startTID(e, idB, clientTID(idB), 20) }()
+		select {
+		case <-pa.paused:
+		case <-time.After(2 * time.Second):
+		}
+		_ = e.c.Close()
+		once.Do(func() { close(pa.release) })
+		var eb error
+		select {
+		case eb = <-errB:
+		case <-time.After(3 * time.Second):
+			eb = errors.New("Start did not return")
+			o.failFor("C10", "start-does-not-return", fmt.Sprintf("x start-overlapping-close #%d", i))
+		}
+		time.Sleep(20 * time.Millisecond)
+		nA, nB := count(e, idA), count(e, idB)
+		if nA != 1 || (eb == nil && nB != 1) || (eb != nil && nB != 0) {
+			d := fmt.Sprintf("x start-overlapping-close #%d first: invoked=%d; overlapping Start returned %v and its handler was invoked %d time(s)", i, nA, eb, nB)
+			o.failFor("C10", "handler-not-invoked-exactly-once", d)
+			o.failFor("C15", "handler-not-invoked-exactly-once", d)
+		}
+		o.count("start-overlapping-close")
+	}
+	// (9) two ticks of the collector overlap: the first is held in the handler of its first timeout while a
+	// second one, on another goroutine, times out three younger transactions
+	for i := 0; i < 8; i++ {
+		e := mk(false, stun.WithNoRetransmit)
+		if e == nil {
+			continue
+		}
+		hold, resume := make(chan struct{}), make(chan struct{})
+		var first sync.Once
+		older := []int{7500, 7501, 7502, 7503}
+		for _, id := range older {
+			id := id
+			raw := stunMsg(r, 1, 20)
+			tid := clientTID(id)
+			copy(raw[8:20], tid[:])
+			_ = e.c.Start(&stun.Message{TransactionID: tid, Raw: raw}, func(stun.Event) {
+				e.mu.Lock()
+				e.invoked[id] = append(e.invoked[id], id)
+				e.mu.Unlock()
+				first.Do(func() {
+					close(hold)
+					select {
+					case <-resume:
+					case <-time.After(3 * time.Second):
+					}
+				})
+			})
+		}
+		t1 := agentBase.Add(101)
+		e.clock.set(t1)
+		tick1 := make(chan struct{})
+		go func() { e.coll.f(t1); close(tick1) }()
+		select {
+		case <-hold:
+		case <-time.After(2 * time.Second):
+		}
+		younger := []int{7600, 7601, 7602}
+		for _, id := range younger {
+			_ = startTID(e, id, clientTID(id), 20)
+		}
+		t2 := agentBase.Add(300)
+		e.clock.set(t2)
+		e.coll.f(t2)
+		close(resume)
+		<-tick1
+		_ = e.c.Close()
+		for _, id := range append(append([]int{}, older...), younger...) {
+			if n := count(e, id); n != 1 {
+				d := fmt.Sprintf("x overlapping-collector-ticks #%d id=%d invoked=%d", i, id, n)
+				o.failFor("C10", "handler-not-invoked-exactly-once", d)
+				o.failFor("C11", "handler-not-invoked-exactly-once", d)
+			}
+		}
+		o.count("overlapping-collector-ticks")
+	}
+}
+
+// pauseStartAgent: the stock Agent behind the ClientAgent interface; when armed, the next Start is held
+// before it reaches the agent until the harness releases it
+type pauseStartAgent struct {
+	*stun.Agent
+	armed   atomic.Bool
+	paused  chan struct{}
+	release chan struct{}
+}
+
+func (p *pauseStartAgent) Start(id [stun.TransactionIDSize]byte, deadline time.Time) error {
+	if p.armed.CompareAndSwap(true, false) {
+		p.paused <- struct{}{}
+		select {
+		case <-p.release:
+		case <-time.After(3 * time.Second):
+		}
+	}
+	return p.Agent.Start(id, deadline)
 }
